@@ -56,6 +56,29 @@ SyntaxVisitor::Action SyntaxCorrelationDisambiguator::visitCompoundStatement(con
     return Action::Skip;
 }
 
+Disambiguator::Disambiguation SyntaxCorrelationDisambiguator::disambiguateByDeclarationBefore(
+        const SyntaxNode* node,
+        const std::string& name,
+        Disambiguation asTypeName,
+        Disambiguation asNonTypeName) const
+{
+    // A declaration of the name before the ambiguity tells its role there,
+    // whatever the rest of the block declares or uses (6.2.1-7).
+    if (!catalog_->isIndexed(node))
+        return Disambiguation::Inconclusive;
+
+    catalog_->markIndexedNodeAsEncloser(node);
+    auto isTypeName = catalog_->hasDefAsTypeName(name);
+    auto isNonTypeName = catalog_->hasDefAsNonTypeName(name);
+    catalog_->dropEncloser();
+
+    if (isTypeName && !isNonTypeName)
+        return asTypeName;
+    if (isNonTypeName && !isTypeName)
+        return asNonTypeName;
+    return Disambiguation::Inconclusive;
+}
+
 Disambiguator::Disambiguation SyntaxCorrelationDisambiguator::disambiguateExpression(
         const AmbiguousCastOrBinaryExpressionSyntax* node) const
 {
@@ -70,6 +93,14 @@ Disambiguator::Disambiguation SyntaxCorrelationDisambiguator::disambiguateExpres
 
     auto tydefName = tyName->specifiers()->value->asTypedefName();
     auto name = tydefName->identifierToken().valueText();
+
+    auto disambig = disambiguateByDeclarationBefore(
+                node,
+                name,
+                Disambiguation::KeepCastExpression,
+                Disambiguation::KeepBinaryExpression);
+    if (disambig != Disambiguation::Inconclusive)
+        return disambig;
 
     return catalog_->hasUseAsTypeName(name)
             ? Disambiguation::KeepCastExpression
@@ -98,6 +129,14 @@ Disambiguator::Disambiguation SyntaxCorrelationDisambiguator::disambiguateStatem
 
     auto tydefName = varDecl->specifiers()->value->asTypedefName();
     auto lhsName = tydefName->identifierToken().valueText();
+
+    auto disambig = disambiguateByDeclarationBefore(
+                node,
+                lhsName,
+                Disambiguation::KeepDeclarationStatement,
+                Disambiguation::KeepExpressionStatement);
+    if (disambig != Disambiguation::Inconclusive)
+        return disambig;
 
     if (catalog_->hasUseAsTypeName(lhsName)
             && !catalog_->hasUseAsNonTypeName(lhsName)) {
@@ -141,6 +180,14 @@ Disambiguator::Disambiguation SyntaxCorrelationDisambiguator::disambiguateTypeRe
 
     auto typedefName = typeName->specifiers()->value->asTypedefName();
     auto name = typedefName->identifierToken().valueText();
+
+    auto disambig = disambiguateByDeclarationBefore(
+                node,
+                name,
+                Disambiguation::KeepTypeName,
+                Disambiguation::KeepExpression);
+    if (disambig != Disambiguation::Inconclusive)
+        return disambig;
 
     return catalog_->hasUseAsTypeName(name)
             ? Disambiguation::KeepTypeName
